@@ -199,12 +199,12 @@ func (fx *FuncExec) Load(st *State, l *Loc) Val {
 	case LField:
 		_, h := fx.fieldHeap(st, l.Owner, l.OwnerS, l.Field)
 		v := Val{T: l.T, S: sel(h, l.Ref), Sort: s}
-		return fx.loaded(v)
+		return fx.allocatedBefore(st, fx.loaded(v))
 	case LElem:
 		key := elemKey(l.T)
 		h := fx.heapTerm(st, key, arr2Sort(s), l.T)
 		v := Val{T: l.T, S: sel(sel(h, l.Arr), l.Idx), Sort: s}
-		return fx.loaded(v)
+		return fx.allocatedBefore(st, fx.loaded(v))
 	case LSub:
 		p := fx.Load(st, l.Parent)
 		pst := l.Parent.T.Underlying().(*types.Struct)
@@ -232,6 +232,17 @@ func (fx *FuncExec) loaded(v Val) Val {
 		v.S = fx.em.Define("ld", v.Sort, v.S)
 	}
 	fx.typeFacts(v)
+	return v
+}
+
+// allocatedBefore: a slice read from the heap points to an array that exists now (its reference is at
+// most the current allocation watermark) - a global well-formedness fact of the heap model.
+func (fx *FuncExec) allocatedBefore(st *State, v Val) Val {
+	if v.Sort == SSlice {
+		if top, ok := st.heaps[topKey]; ok && top != "" {
+			fx.em.Assert(fmt.Sprintf("(<= (s.arr %s) %s)", v.S, top))
+		}
+	}
 	return v
 }
 
